@@ -26,7 +26,7 @@ pub open spec fn unhex(s: Seq<char>) -> Option<Seq<u8>> { unhex_bytes(utf8(s)) }
 pub uninterp spec fn hex_text(b: Seq<u8>) -> Seq<char>;              // hex::encode (lower-case hex digits)
 pub uninterp spec fn hmac_sha256(key: Seq<u8>, msg: Seq<u8>) -> Seq<u8>;   // HMAC-SHA256 (RFC 2104 / FIPS 180-4), 32 bytes
 
-pub open spec fn LF() -> Seq<char> { "\n"@ }
+pub open spec fn lf() -> Seq<char> { "\n"@ }
 pub open spec fn AUTH_H() -> Seq<char> { "x-ms-azure-host-authorization"@ }
 
 // ---- G8: the signature exemption list is exactly the two documented (method, lower-cased URI) pairs -----------------
@@ -87,7 +87,7 @@ pub type HMap = Map<Seq<char>, Seq<http::header::HeaderValue>>;
 // shows that for single-valued maps the choice is immaterial.
 pub open spec fn signed_value(vals: Seq<http::header::HeaderValue>) -> http::header::HeaderValue { vals.last() }
 pub open spec fn header_line(n: Seq<char>, v: http::header::HeaderValue) -> Seq<char> {
-    lower(n) + ":"@ + trim(hv_view(v)) + LF()
+    lower(n) + ":"@ + trim(hv_view(v)) + lf()
 }
 // header names other than the authorization header
 pub open spec fn signed_names(hm: HMap) -> Set<Seq<char>> { hm.dom().filter(|n: Seq<char>| lower(n) != AUTH_H()) }
@@ -98,12 +98,124 @@ pub open spec fn header_lines(ks: Seq<Seq<char>>, hm: HMap) -> Seq<char>
 }
 pub open spec fn canon_h(hm: HMap) -> Seq<char> { header_lines(sorted_names(signed_names(hm)), hm) }
 
+// ASCII lower-casing (str::eq_ignore_ascii_case compares to_ascii_lowercase of both sides)
+pub open spec fn ascii_lower_char(c: char) -> char { if 'A' <= c && c <= 'Z' { ((c as u8) + 32u8) as char } else { c } }
+pub open spec fn ascii_lower(s: Seq<char>) -> Seq<char> { Seq::new(s.len(), |i: int| ascii_lower_char(s[i])) }
+// lower-case ASCII text (what an http::HeaderName holds)
+pub open spec fn is_ascii_lower(s: Seq<char>) -> bool { forall|i: int| 0 <= i < s.len() ==> (#[trigger] s[i] as u32) < 128 && !('A' <= s[i] && s[i] <= 'Z') }
+pub proof fn lemma_ascii_lower_id(s: Seq<char>)
+    requires is_ascii_lower(s),
+    ensures ascii_lower(s) == s,
+{ assert(ascii_lower(s) =~= s); }
+
+// every value of every header is visible ASCII (HeaderValue::to_str succeeds)
+pub open spec fn all_values_visible_ascii(hm: HMap) -> bool {
+    forall|n: Seq<char>, i: int| hm.contains_key(n) && 0 <= i < hm[n].len() ==> hv_visible_ascii(#[trigger] hm[n][i])
+}
+pub open spec fn single_valued(hm: HMap) -> bool { forall|n: Seq<char>| hm.contains_key(n) ==> (#[trigger] hm[n]).len() == 1 }
+
+// ---- HeaderMap::iter(): "each key will be yielded once per associated value", values of one name in order ----
+pub open spec fn values_named(s: Seq<(Seq<char>, http::header::HeaderValue)>, n: Seq<char>) -> Seq<http::header::HeaderValue>
+    decreases s.len()
+{
+    if s.len() == 0 { Seq::empty() }
+    else if s.last().0 == n { values_named(s.drop_last(), n).push(s.last().1) }
+    else { values_named(s.drop_last(), n) }
+}
+pub open spec fn hm_iter_ok(hm: HMap, s: Seq<(Seq<char>, http::header::HeaderValue)>) -> bool {
+    &&& forall|i: int| 0 <= i < s.len() ==> hm.contains_key((#[trigger] s[i]).0)
+    &&& forall|n: Seq<char>| hm.contains_key(n) ==> (#[trigger] values_named(s, n)) == hm[n] && hm[n].len() > 0
+}
+pub proof fn lemma_values_named_member(s: Seq<(Seq<char>, http::header::HeaderValue)>, i: int)
+    requires 0 <= i < s.len(),
+    ensures values_named(s, s[i].0).contains(s[i].1),
+    decreases s.len()
+{
+    let n = s[i].0;
+    if i == s.len() - 1 {
+        let v = values_named(s.drop_last(), n).push(s.last().1);
+        assert(v[v.len() - 1] == s[i].1);
+    } else {
+        lemma_values_named_member(s.drop_last(), i);
+        let w = values_named(s.drop_last(), n);
+        let j = choose|j: int| 0 <= j < w.len() && w[j] == s[i].1;
+        if s.last().0 == n { assert(w.push(s.last().1)[j] == s[i].1); }
+    }
+}
+pub proof fn lemma_values_named_nonempty(s: Seq<(Seq<char>, http::header::HeaderValue)>, n: Seq<char>)
+    requires values_named(s, n).len() > 0,
+    ensures exists|i: int| 0 <= i < s.len() && (#[trigger] s[i]).0 == n,
+    decreases s.len()
+{
+    if s.len() == 0 {} else if s.last().0 == n { assert(s[s.len() - 1].0 == n); }
+    else { lemma_values_named_nonempty(s.drop_last(), n); let i = choose|i: int| 0 <= i < s.drop_last().len() && (#[trigger] s.drop_last()[i]).0 == n; assert(s[i].0 == n); }
+}
+
+// ---- order lemmas ----
+pub proof fn lemma_lex_lt_irrefl(a: Seq<char>)
+    ensures !lex_lt(a, a),
+    decreases a.len()
+{ if a.len() > 0 { lemma_lex_lt_irrefl(a.drop_first()); } }
+pub proof fn lemma_lex_lt_trans(a: Seq<char>, b: Seq<char>, c: Seq<char>)
+    requires lex_lt(a, b), lex_lt(b, c),
+    ensures lex_lt(a, c),
+    decreases a.len()
+{
+    if a.len() > 0 && b.len() > 0 && c.len() > 0 && a[0] == b[0] && b[0] == c[0] { lemma_lex_lt_trans(a.drop_first(), b.drop_first(), c.drop_first()); }
+}
+// an ascending enumeration of a set is unique
+pub proof fn lemma_sorted_enum_unique(a: Seq<Seq<char>>, b: Seq<Seq<char>>, s: Set<Seq<char>>)
+    requires sorted_enum(a, s), sorted_enum(b, s),
+    ensures a == b,
+    decreases a.len()
+{
+    if a.len() == 0 {
+        if b.len() > 0 { assert(b.to_set().contains(b[0])); assert(a.to_set().contains(b[0])); }
+        assert(a =~= b);
+    } else if b.len() == 0 {
+        assert(a.to_set().contains(a[0])); assert(b.to_set().contains(a[0]));
+    } else {
+        // the last elements are the maximum of s
+        let x = a.last(); let y = b.last();
+        assert(a.to_set().contains(x)); assert(b.to_set().contains(x));
+        assert(b.to_set().contains(y)); assert(a.to_set().contains(y));
+        let i = choose|i: int| 0 <= i < b.len() && b[i] == x;
+        let j = choose|j: int| 0 <= j < a.len() && a[j] == y;
+        if x != y {
+            assert(i < b.len() - 1); assert(lex_lt(b[i], b[b.len() - 1]));
+            assert(j < a.len() - 1); assert(lex_lt(a[j], a[a.len() - 1]));
+            lemma_lex_lt_trans(x, y, x); lemma_lex_lt_irrefl(x);
+        }
+        let a1 = a.drop_last(); let b1 = b.drop_last();
+        assert forall|z: Seq<char>| a1.to_set().contains(z) == s.remove(x).contains(z) by {
+            if a1.to_set().contains(z) { let k = choose|k: int| 0 <= k < a1.len() && a1[k] == z; assert(a[k] == z); assert(a.to_set().contains(z)); assert(lex_lt(a[k], a[a.len() - 1])); if z == x { lemma_lex_lt_irrefl(x); } }
+            if s.remove(x).contains(z) { assert(a.to_set().contains(z)); let k = choose|k: int| 0 <= k < a.len() && a[k] == z; assert(a1[k] == z); }
+        }
+        assert forall|z: Seq<char>| b1.to_set().contains(z) == s.remove(x).contains(z) by {
+            if b1.to_set().contains(z) { let k = choose|k: int| 0 <= k < b1.len() && b1[k] == z; assert(b[k] == z); assert(b.to_set().contains(z)); assert(lex_lt(b[k], b[b.len() - 1])); if z == x { lemma_lex_lt_irrefl(x); } }
+            if s.remove(x).contains(z) { assert(b.to_set().contains(z)); let k = choose|k: int| 0 <= k < b.len() && b[k] == z; assert(b1[k] == z); }
+        }
+        assert(a1.to_set() =~= s.remove(x)); assert(b1.to_set() =~= s.remove(x));
+        assert(ascending(a1)) by { assert forall|p: int, q: int| 0 <= p < q < a1.len() implies lex_lt(#[trigger] a1[p], #[trigger] a1[q]) by { assert(lex_lt(a[p], a[q])); } }
+        assert(ascending(b1)) by { assert forall|p: int, q: int| 0 <= p < q < b1.len() implies lex_lt(#[trigger] b1[p], #[trigger] b1[q]) by { assert(lex_lt(b[p], b[q])); } }
+        lemma_sorted_enum_unique(a1, b1, s.remove(x));
+        assert(a =~= a1.push(x)); assert(b =~= b1.push(y));
+    }
+}
+pub proof fn lemma_sorted_names(ks: Seq<Seq<char>>, s: Set<Seq<char>>)
+    requires sorted_enum(ks, s),
+    ensures sorted_names(s) == ks,
+{ lemma_sorted_enum_unique(sorted_names(s), ks, s); }
+pub proof fn lemma_header_lines_push(ks: Seq<Seq<char>>, k: Seq<char>, hm: HMap)
+    ensures header_lines(ks.push(k), hm) == header_lines(ks, hm) + header_line(k, signed_value(hm[k])),
+{ assert(ks.push(k).drop_last() =~= ks); }
+
 // ---- G4: canonicalized parameters ------------------------------------------------------------------------------------
 pub uninterp spec fn canon_p(ps: Seq<(Seq<char>, Seq<char>)>) -> Seq<char>;  // TODO
 
 // ---- G1/G2: the canonical string ("string to sign") -----------------------------------------------------------------
 pub open spec fn canon(method: Seq<char>, body: Seq<u8>, hm: HMap, path: Seq<char>, pairs: Seq<(Seq<char>, Seq<char>)>) -> Seq<u8> {
-    utf8(method) + utf8(LF()) + body + utf8(LF()) + utf8(canon_h(hm)) + utf8(path) + utf8(LF()) + utf8(canon_p(pairs))
+    utf8(method) + utf8(lf()) + body + utf8(lf()) + utf8(canon_h(hm)) + utf8(path) + utf8(lf()) + utf8(canon_p(pairs))
 }
 pub open spec fn sig_input_spec(m: http::Method, u: http::Uri, h: http::HeaderMap, body: Seq<u8>) -> Seq<u8> {
     canon(method_text(m), body, hm_view(h), uri_path(u), url_pairs(u))
